@@ -533,7 +533,36 @@ func formEncode(kvs [][2]string) string {
 	return strings.Join(parts, "&")
 }
 
+// coherentWalletCreate: a parameter set the wallet service accepts (the per-parameter choice below almost
+// never produces one: ten parameters with cross-constraints)
+func (g gen) coherentWalletCreate(path string) string {
+	kvs := [][2]string{{"label", g.pick("fresh", "my wallet")}}
+	switch g.r.Intn(3) {
+	case 0, 1:
+		kvs = append(kvs, [2]string{"type", "deterministic"}, [2]string{"seed", "fresh seed " + strconv.Itoa(g.r.Intn(100000))})
+	case 2:
+		kvs = append(kvs, [2]string{"type", "bip44"}, [2]string{"seed", g.pick(mnemonic12, "legal winner thank year wave sausage worth useful legal winner thank year wave sausage worth useful legal will")})
+		if g.r.Bool() {
+			kvs = append(kvs, [2]string{"seed-passphrase", "pp" + strconv.Itoa(g.r.Intn(1000))})
+		}
+	}
+	if path == "/api/v1/wallet/create" {
+		if g.r.Bool() {
+			kvs = append(kvs, [2]string{"encrypt", "true"}, [2]string{"password", "pw1"})
+		} else {
+			kvs = append(kvs, [2]string{"encrypt", "false"})
+		}
+	}
+	if g.r.Bool() {
+		kvs = append(kvs, [2]string{"scan", g.pick("1", "2", "5")})
+	}
+	return "http m=POST p=" + path + " q= ct=form b=" + esc(formEncode(kvs))
+}
+
 func (g gen) formRequest(path string, ep endpoint) string {
+	if (path == "/api/v1/wallet/create" || path == "/api/v1/wallet/createTemp") && g.r.Intn(4) == 0 {
+		return g.coherentWalletCreate(path)
+	}
 	var kvs [][2]string
 	for _, p := range ep.form {
 		valid, bad := g.value(p.kind)
